@@ -26,6 +26,10 @@ VARIANTS = (("written", "w"), ("textbook", "t"))
 ACTIONS = ("Begin", "F1", "F2", "F3", "F4", "S2", "U2", "U3", "U4", "U5", "U6", "U7")
 FINDING_DIR = os.path.join(VERIF, "findings", "C29-lost-union")
 TRACE_CONST = "CONSTANTS N = 4  Clients = {0, 1, 2, 3}"
+import time
+_T0 = time.time()
+def tick(msg):
+    log("[C29 %6.1fs] %s" % (time.time() - _T0, msg))
 
 # ------------------------------------------------------------------------------------------------ jobs
 def op_txt(o):
@@ -203,7 +207,9 @@ def run_S(res, wd, tier):
         return t, model_check(d, fam, sfx, "12g", max(2, NCPU // par), cov, 2400 if tier == "thorough" else 420)
     with cf.ThreadPoolExecutor(max_workers=par) as ex:
         results = list(ex.map(one, tasks))
+    taken = {v: {} for v, _ in VARIANTS}
     for (fam, v, sfx, cov), r in results:
+        tick("S %s/%s: %s distinct=%d" % (fam, v, "ok" if r["ok"] else r["violated"] or "error", r["distinct"]))
         if r["violated"]:
             conf, sched, states = parse_cex(r["out"])
             path = os.path.join(wd, "tlc_%s_%s.out" % (fam, sfx)); open(path, "w").write(r["out"])
@@ -214,11 +220,15 @@ def run_S(res, wd, tier):
             out[v]["states"] += r["distinct"]
             if cov:
                 c = tlc.coverage_counts(r["out"])
-                never = [a for a in ACTIONS if a in c and c[a][0] == 0]
-                if never:
-                    res.infra_errors.append("vacuity: actions never taken in %s/%s: %s" % (fam, v, never))
+                for a in ACTIONS:
+                    taken[v][a] = taken[v].get(a, 0) + c.get(a, (0, 0))[0]
         else:
             res.infra_errors.append("TLC failed on %s/%s: %s" % (fam, v, (r["error"] or "")[-600:]))
+    for v, _ in VARIANTS:
+        never = [a for a in ACTIONS if taken[v] and taken[v].get(a, 0) == 0]
+        if never and not out[v]["violated"]:
+            res.infra_errors.append("vacuity: actions of UnionFindImpl never taken (Variant=%s): %s" % (v, never))
+    out["taken"] = taken
     return out
 
 def run_abs(res, wd):
@@ -256,6 +266,7 @@ def dump_graph(wd, cfgfam, sfx):
 def replay_variant(res, wd, drv, fam, v, sfx, max_walks):
     """returns (executions, drift count, walks, steps compared, first drift descriptions)"""
     g, r = dump_graph(wd, fam, sfx)
+    tick("R %s: graph dumped" % v)
     if g is None:
         res.infra_errors.append("graph dump failed for %s/%s: %s" % (fam, v, r["violated"] or r["error"]))
         return [], None, 0, 0, []
@@ -263,7 +274,9 @@ def replay_variant(res, wd, drv, fam, v, sfx, max_walks):
     if max_walks and len(walks) > max_walks:
         walks = random.Random(seed() * 7 + len(v)).sample(walks, max_walks)
     jobs = [conf_job(g.state(init)["conf"], ",".join(g.edges[i][3] for i in w), verbose=True) for init, w in walks]
+    tick("R %s: %d walks" % (v, len(jobs)))
     execs = run_driver(drv, jobs)
+    tick("R %s: driver done" % v)
     drift = 0; steps = 0; first = []
     nspec = len(g.state(walks[0][0])["block"]) if walks else 0
     for e in execs:
@@ -308,6 +321,7 @@ def validate_histories(res, wd, execs, batch_events=30000):
     def one(b):
         k, (events, ids) = b
         return tracecheck.validate("UnionFindAbsTrace", events, wd, "MCT_UF_%d" % k, constants=TRACE_CONST, heap="3g", timeout=1500)
+    tick("T: %d distinct histories of %d executions, %d batches" % (len(hists), len(execs), len(batches)))
     with cf.ThreadPoolExecutor(max_workers=max(2, min(6, NCPU // 2))) as ex:
         outs = list(ex.map(one, enumerate(batches)))
     rejected = {}
@@ -408,6 +422,7 @@ def run(tier, replay_path=None):
     all_execs = []; conform = {}; labels = []
     for v, sfx in VARIANTS:
         execs, drift, nwalks, steps, first = replay_variant(res, wd, drv, fam, v, sfx, None if quick else 60000)
+        tick("R %s: %d walks, %d drift, %d steps" % (v, nwalks, drift or 0, steps))
         conform[v] = drift == 0 and nwalks > 0
         res.count("walks_replayed_" + v, nwalks); res.count("steps_compared_" + v, steps); res.count("drift_walks_" + v, drift or 0)
         for e in execs:
@@ -435,7 +450,9 @@ def run(tier, replay_path=None):
     rng = random.Random(seed() * 1000003 + 29)
     extra += [(j, "random") for j in random_jobs(rng, 3000 if quick else 60000)]
     extra += [(j, "dfs") for j in dfs_jobs(tier)]
+    tick("driver: %d random/dfs jobs" % len(extra))
     ex2 = run_driver(drv, [j for j, _ in extra])
+    tick("driver done: %d executions" % len(ex2))
     for e in ex2:
         e["src"] = extra[e["job"]][1]
     all_execs += ex2
@@ -443,6 +460,7 @@ def run(tier, replay_path=None):
     res.count("dfs_schedules", sum(1 for e in ex2 if e["src"] == "dfs"))
     # S results; counterexamples of either variant become schedules for the real object
     S = fut_S.result(); fut_abs.result(); pool.shutdown()
+    tick("S done")
     cex_jobs = []
     for v, _ in VARIANTS:
         for fam_, what, conf, sched, states, path in S[v]["violated"]:
@@ -459,6 +477,7 @@ def run(tier, replay_path=None):
                                    "distinct_states": S[v]["states"]} for v, _ in VARIANTS}
     # T: the verdict
     nk, nv = judge(res, wd, drv, all_execs, kf, "t")
+    tick("T done: %d executions, %d known-finding hits, %d violations" % (len(all_execs), nk, nv))
     # a counterexample of the variant the code follows must be reproduced by the code (else the spec misrepresents it)
     base = len(all_execs) - len(ex3)
     for e in ex3:
